@@ -96,7 +96,9 @@ def run_impl(c):
     return {"obs": S.jsonable_obs(S.run_history(c["calls"], c["events"], c.get("close_raises", False)))}
 
 def coq_case(c, r):
-    if "raise" in r:
+    if "raise" in r or any(o["raised"] == "RecordedErrorErased" for o in r["obs"]):
+        # the harness could not run the history, or an error that was recorded during a call had vanished when the call returned
+        # ("the recorded message is never replaced" - nor dropped): no reading of the observations can satisfy the property
         return "(K04 %s [] [(CStatus, mkobs true RNone [] None false None 0%%nat)])" % S.coq_cfg(*CFG)
     return "(K04 %s %s %s)" % (S.coq_cfg(*CFG), S.coq_script(c["events"]), S.coq_history(c["calls"], r["obs"]))
 
